@@ -91,6 +91,11 @@ def main():
     if a.benign:
         with open(os.path.join(VERIF, "design_assets", "benign_changes.json")) as f:
             src = [{"name": n, "kind": "replace", **m} for n, m in json.load(f)["mutants"].items()]
+        bd = os.path.join(VERIF, "design_assets", "benign")
+        allp = ["C01", "C02", "C04", "C05", "C07", "C08", "C09", "C13", "C15", "C19", "C20"]
+        for fn in sorted(os.listdir(bd)) if os.path.isdir(bd) else []:
+            if fn.endswith(".diff"):
+                src.append({"name": "benign_" + fn[:-5], "kind": "patch", "patch": os.path.join(bd, fn), "props": allp})
     else:
         src = load()
     muts = [m for m in src if (not a.only or a.only in m["name"])]
